@@ -494,38 +494,6 @@ Definition uint_val_ok (w : nat) (s : slot) : bool :=
 Definition bin_val_ok (s : slot) : bool :=
   match s with SV v => (0 <=? v) && (v <? 256) | SX _ => true end.
 
-Definition new_int (w : nat) (args : list gval) : option item :=
-  if negb (size_ok (tyname KInt w) (length args)) then None else
-  match map_opt int_arg args with
-  | None => None
-  | Some xs =>
-    if width_ok_int w && forallb (int_val_ok w) xs && names_ok xs
-    then Some (ILeaf KInt w xs) else None
-  end.
-
-Definition new_uint (w : nat) (args : list gval) : option item :=
-  if negb (size_ok (tyname KUint w) (length args)) then None else
-  match map_opt uint_arg args with
-  | None => None
-  | Some xs =>
-    if width_ok_int w && forallb (uint_val_ok w) xs && names_ok xs
-    then Some (ILeaf KUint w xs) else None
-  end.
-
-Definition new_binary (args : list gval) : option item :=
-  if negb (size_ok (B"binary"%string) (length args)) then None else
-  match map_opt bin_arg args with
-  | None => None
-  | Some xs => if forallb bin_val_ok xs && names_ok xs then Some (ILeaf KBin 1 xs) else None
-  end.
-
-Definition new_boolean (args : list gval) : option item :=
-  if negb (size_ok (B"binary"%string) (length args)) then None else   (* sic: the code asks for "binary" *)
-  match map_opt bool_arg args with
-  | None => None
-  | Some xs => if names_ok xs then Some (ILeaf KBool 1 xs) else None
-  end.
-
 (* float arguments: every Go numeric type is converted to float64 first *)
 Definition abs_le_maxf32 (b64 : Z) : bool := (b64 mod 9223372036854775808) <=? max_f32_as_f64.
 
@@ -564,12 +532,52 @@ Definition float_arg (w : nat) (a : gval) : option slot :=
   | _ => None
   end.
 
-Definition new_float (w : nat) (args : list gval) : option item :=
-  if negb (size_ok (tyname KFloat w) (length args)) then None else
-  match map_opt (float_arg w) args with
-  | None => None
-  | Some xs => if width_ok_float w && names_ok xs then Some (ILeaf KFloat w xs) else None
+(* the five value-item factories share one shape: size limit, conversion of
+   every argument by the Go-type switch, then checkRep *)
+Definition leaf_arg (k : kind) (w : nat) : gval -> option slot :=
+  match k with
+  | KInt => int_arg
+  | KUint => uint_arg
+  | KBin => bin_arg
+  | KBool => bool_arg
+  | KFloat => float_arg w
   end.
+
+Definition val_okb (k : kind) (w : nat) (s : slot) : bool :=
+  match k with
+  | KInt => int_val_ok w s
+  | KUint => uint_val_ok w s
+  | KBin => bin_val_ok s
+  | KBool | KFloat => true          (* already decided by the conversion *)
+  end.
+
+Definition width_okb (k : kind) (w : nat) : bool :=
+  match k with
+  | KInt | KUint => width_ok_int w
+  | KFloat => width_ok_float w
+  | KBin | KBool => (w =? 1)%nat
+  end.
+
+Definition size_typ (k : kind) (w : nat) : bytes :=
+  match k with
+  | KBool => B"binary"%string           (* sic: NewBooleanNode asks for "binary" *)
+  | _ => tyname k w
+  end.
+
+Definition new_leaf (k : kind) (w : nat) (args : list gval) : option item :=
+  if negb (size_ok (size_typ k w) (length args)) then None else
+  match map_opt (leaf_arg k w) args with
+  | None => None
+  | Some xs =>
+    if width_okb k w && forallb (val_okb k w) xs && names_ok xs
+    then Some (ILeaf k w xs) else None
+  end.
+
+Definition new_int (w : nat) := new_leaf KInt w.
+Definition new_uint (w : nat) := new_leaf KUint w.
+Definition new_float (w : nat) := new_leaf KFloat w.
+Definition new_binary := new_leaf KBin 1.
+Definition new_boolean := new_leaf KBool 1.
 
 Definition is_ascii_bytes (s : bytes) : bool := forallb (fun b => b2z b <? 128) s.
 
